@@ -49,7 +49,11 @@ func (e *Engine) verifyFn(fn *ssa.Function, opts *VCOpts, post func(fr *Frame, q
 		}
 		sub := &FnResult{Fn: r.Fn, Obls: autos, query: r.query, frame: r.frame, Background: r.Background}
 		initSem(16)
-		dischargeFn(sub, Tier{Name: "houdini", BatchMS: 2000, SingleS: 1, Parallel: 16, Skip: func(*Obligation) bool { return false }, NoModels: true, BatchOnly: true, LiteOnly: true})
+		hb, hs := 2000, 1
+		if len(r.Background) > 200000 {
+			hb, hs = 8000, 3 // very large functions: give the candidate rounds more time, or sound candidates are dropped on timeouts
+		}
+		dischargeFn(sub, Tier{Name: "houdini", BatchMS: hb, SingleS: hs, Parallel: 16, Skip: func(*Obligation) bool { return false }, NoModels: true, BatchOnly: true, LiteOnly: true})
 		changed := false
 		for _, o := range autos {
 			if o.Answer != "unsat" {
@@ -57,6 +61,9 @@ func (e *Engine) verifyFn(fn *ssa.Function, opts *VCOpts, post func(fr *Frame, q
 				if !drop[k] {
 					drop[k] = true
 					changed = true
+					if os.Getenv("GOVC_DEBUG_HOUDINI") != "" {
+						fmt.Fprintf(os.Stderr, "houdini round %d: drop %s [%s] %s\n", round, o.Kind, o.Answer, k)
+					}
 				}
 			}
 			o.Answer, o.Solver = "", ""
